@@ -708,6 +708,29 @@ pub fn gen_ops(r: &mut Rng, n: usize, with_mls: bool, snapshot_heavy: bool) -> V
         if r.chance(1, 25) {
             v.push(StOp::Prune { min_back: [0, 1, 2, 1000][r.below(4) as usize] });
         }
+        if snapshot_heavy && r.chance(1, 30) {
+            // a snapshot re-taken under its name after rows of the first take have gone (relays are
+            // re-inserted under new row ids, proposals cleared), then a rollback to it: exactly
+            // the second take must come back
+            let g = r.below(2) as u8;
+            let name = r.below(3) as u8;
+            let a = 1 + r.below(15) as u8;
+            let b = 1 + r.below(15) as u8;
+            v.push(StOp::ReplaceRelays { g, mask: a });
+            if with_mls {
+                v.push(StOp::MlsQueueProposal { g, r: r.below(3) as u8, val: r.below(250) as u8 });
+                v.push(StOp::MlsEpochKeys { g, epoch: r.below(3) as u8, leaf: r.below(2) as u8, val: r.below(250) as u8 });
+            }
+            v.push(StOp::Snapshot { g, name });
+            v.push(StOp::ReplaceRelays { g, mask: b });
+            if with_mls {
+                v.push(StOp::MlsClearProposals { g });
+            }
+            v.push(StOp::Snapshot { g, name });
+            v.push(StOp::ReplaceRelays { g, mask: 1 + r.below(15) as u8 });
+            v.push(StOp::Rollback { g, name });
+            v.push(StOp::Relays { g });
+        }
     }
     v
 }
